@@ -15,15 +15,15 @@ def grids(tier):
         Ls = [0.5, 1.0, 7.5, 15.0, 350.0]          # includes l == w (exactly one square)
         T = [0.0175, 0.035, 0.0350001, 0.07]       # includes nearly equal thicknesses
         R = [RHO, 1.68e-8, 2.65e-8]                # includes nearly equal resistivities
-        TE = [20.0, -40.0, 50.0, 125.0]
-        TC = [TCR, 0.0, 0.00429]
+        TE = [20.0, -40.0, 21.25, 36.64, 125.0]   # includes temperatures that are not multiples of 0.1
+        TC = [TCR, 0.0, 0.00429, 1.5]             # includes a coefficient above 1 per degree
     else:
         W = [0.05, 0.1, 0.127, 0.254, 1.0, 3.3, 7.5, 25.0]
         Ls = [0.01, 0.1, 0.5, 1.0, 7.5, 15.0, 25.0, 80.0, 350.0, 1e4]
         T = [0.009, 0.0175, 0.035, 0.0350001, 0.07, 0.105]
         R = [RHO, 1.68e-8, 1.7241e-8, 2.65e-8, 1.0e-6]
-        TE = [20.0, -55.0, -40.0, 0.0, 50.0, 85.0, 125.0]
-        TC = [TCR, 0.0, 0.00429, 1e-5]
+        TE = [20.0, -55.0, -40.0, 0.0, 21.25, 36.64, 48.375, 85.0, 125.0]
+        TC = [TCR, 0.0, 0.00429, 1e-5, 1.0, 1.5]
     return W, Ls, T, R, TE, TC
 
 
